@@ -26,6 +26,15 @@ def dna(seq, salt=0):
     return "".join(NT[d] if d < 4 else FOREIGN[(salt + i) % len(FOREIGN)] for i, d in enumerate(seq))
 
 
+TRICKY = ["\n", " ", "\t", "a", "t", "\r", "\x00", "\uff21"]   # characters that naive normalisation / pattern matching lets through
+
+
+def dna_tricky(seq, pick):
+    """As dna(), every foreign symbol rendered as one character of TRICKY (a trailing line feed, surrounding blanks, lower case...)."""
+    ch = TRICKY[pick % len(TRICKY)]
+    return "".join(NT[d] if d < 4 else ch for d in seq)
+
+
 def undna(s):
     return [NT.index(c) if c in NT else 4 for c in s]
 
